@@ -284,3 +284,53 @@ pub fn mle_all(t: &mut Tally, seed: u64) {
         }
     }
 }
+
+/// larger inputs (so that the `parallel` feature's work splitting is actually exercised): F_65537, two-adicity 16
+pub fn par_big(t: &mut Tally, seed: u64) {
+    let mut rng = Rng(seed.wrapping_mul(0x9E3779B97F4A7C15) | 1);
+    let rnd = |rng: &mut Rng| F65537::from(rng.next() % 65537);
+    for log in [6usize, 9, 11] {
+        let n = 1usize << log;
+        for offset in [F65537::one(), F65537::from(3u64)] {
+            let dom = Radix2EvaluationDomain::<F65537>::new(n).unwrap().get_coset(offset).unwrap();
+            for len in [n, n - 1, n / 2 + 1, n / 4, 3] {
+                let c: Vec<F65537> = (0..len).map(|_| rnd(&mut rng)).collect();
+                let ev = dom.fft(&c);
+                let els: Vec<F65537> = dom.elements().collect();
+                t.check(ev.len() == n && (0..n).all(|i| ev[i] == horner(&c, els[i])), || format!("F65537: fft size {n} offset {offset} len {len}"));
+                let back = dom.ifft(&ev);
+                t.check((0..n).all(|j| back[j] == if j < len { c[j] } else { F65537::zero() }), || format!("F65537: ifft size {n} offset {offset} len {len}"));
+                let l = dom.evaluate_all_lagrange_coefficients(F65537::from(12345u64));
+                t.check((0..4usize).all(|d| (0..n).map(|i| l[i] * els[i].pow([d as u64])).sum::<F65537>() == F65537::from(12345u64).pow([d as u64])), || format!("F65537: lagrange size {n}"));
+            }
+        }
+        // polynomial arithmetic through the FFT path, evaluation over a domain for operands longer than the domain
+        let a: Vec<F65537> = (0..(n / 2 + 3)).map(|_| rnd(&mut rng)).collect();
+        let b: Vec<F65537> = (0..(n / 3 + 1)).map(|_| rnd(&mut rng)).collect();
+        let (pa, pb) = (DensePolynomial::from_coefficients_vec(a.clone()), DensePolynomial::from_coefficients_vec(b.clone()));
+        let prod = &pa * &pb;
+        t.check(prod == pa.naive_mul(&pb), || format!("F65537: FFT mul vs naive mul, sizes {} {}", a.len(), b.len()));
+        for x in [F65537::from(7u64), F65537::from(65536u64)] {
+            t.check(pa.evaluate(&x) == horner(&a, x), || format!("F65537: evaluate len {}", a.len()));
+        }
+        let dom = Radix2EvaluationDomain::<F65537>::new(n / 4).unwrap().get_coset(F65537::from(5u64)).unwrap();
+        let evs = pa.evaluate_over_domain_by_ref(dom);
+        let els: Vec<F65537> = dom.elements().collect();
+        t.check((0..els.len()).all(|i| evs.evals[i] == horner(&a, els[i])), || format!("F65537: evaluate_over_domain (poly longer than domain) size {}", n / 4));
+    }
+    // batch inversion of long vectors with zeros sprinkled in
+    for len in [1usize, 2, 17, 64, 1000] {
+        let v: Vec<F65537> = (0..len).map(|i| if i % 13 == 5 { F65537::zero() } else { rnd(&mut rng) }).collect();
+        let mut w = v.clone();
+        let c = F65537::from(9u64);
+        ark_ff::batch_inversion_and_mul(&mut w, &c);
+        t.check(v.iter().zip(&w).all(|(o, r)| if o.is_zero() { r.is_zero() } else { *r * *o == c }), || format!("F65537: batch_inversion_and_mul len {len}"));
+    }
+    // MLE with 10 variables
+    let nv = 10;
+    let table: Vec<F7> = (0..(1usize << nv)).map(|_| F7::from(rng.next() % 7)).collect();
+    let m = DenseMultilinearExtension::from_evaluations_vec(nv, table.clone());
+    let point: Vec<F7> = (0..nv).map(|_| F7::from(rng.next() % 7)).collect();
+    t.check(m.evaluate(&point) == mle_def(&table, &point), || "dense MLE nv=10".into());
+    t.check(m.fix_variables(&point[..4]).evaluate(&point[4..].to_vec()) == mle_def(&table, &point), || "dense MLE fix_variables nv=10".into());
+}
